@@ -568,3 +568,10 @@ twin("C08-T6", "C08", "components de-duplicated in order", M, "Population.build"
 mutant("C05-M25", "C05", "R05c", "TimedCompartment.connect: duration-group test negated", M, "TimedCompartment.connect", "        if (isinstance(dest, TimedCompartment) and dest.parameter.name == self.parameter.name) or (isinstance(dest, JunctionCompartment) and dest.duration_group == self.parameter.name):", "        if not ((isinstance(dest, TimedCompartment) and dest.parameter.name == self.parameter.name) or (isinstance(dest, JunctionCompartment) and dest.duration_group == self.parameter.name)):")
 mutant("C05-M26", "C05", "R05c", "JunctionCompartment.connect: duration-group test negated", M, "JunctionCompartment.connect", "        if self.duration_group:", "        if not self.duration_group:")
 mutant("C04-M29", "C04", "R04a", "junction stock not zero-filled at preallocation", M, "JunctionCompartment.preallocate", "        self.vals.fill(0.0)", "        pass")
+mutant("C17-M13", "C17", "R17a", "pool initialiser returns before reseeding when the log level is already strict", U, "_worker_init", "    logger.setLevel(logging.WARNING)\n", "    if logger.getEffectiveLevel() >= logging.WARNING:\n        return\n    logger.setLevel(logging.WARNING)\n")
+twin("C17-T5", "C17", "log level only lowered when needed, reseed unconditional", U, "_worker_init", "    logger.setLevel(logging.WARNING)\n", "    if logger.getEffectiveLevel() < logging.WARNING:\n        logger.setLevel(logging.WARNING)\n")
+mutant("C18-M21", "C18", "R18e", "unit migration compares only the first word", DA, "ProjectData.from_spreadsheet", "ts.units.strip().lower() == tdve.allowed_units[0].strip().split()[0].strip().lower()", "ts.units.strip().split()[0].lower() == tdve.allowed_units[0].strip().split()[0].lower()")
+mutant("C18-M22", "C18", "R18e", "unit migration unconditional", DA, "ProjectData.from_spreadsheet", "                            if not ts.units or ts.units.strip().lower() == tdve.allowed_units[0].strip().split()[0].strip().lower():\n                                ts.units = tdve.allowed_units[0]", "                            ts.units = tdve.allowed_units[0]")
+twin("C18-T4", "C18", "unit comparison with casefold", DA, "ProjectData.from_spreadsheet", "ts.units.strip().lower() == tdve.allowed_units[0].strip().split()[0].strip().lower()", "ts.units.strip().casefold() == tdve.allowed_units[0].strip().split()[0].strip().casefold()")
+mutant("C15-M15", "C15", "R15f", "initial spend remembered on the adjustable", OP, "SpendingAdjustment.get_initialization", "                initialization.append(alloc[self.prog_name][0])", "                adjustable.initial_value = alloc[self.prog_name][0]\n                initialization.append(adjustable.initial_value)")
+mutant("C15-M16", "C15", "R15f", "constraint caches the years it was last asked about", OP, "TotalSpendConstraint.get_hard_constraint", '        hard_constraints["bounds"] = dict()\n', '        hard_constraints["bounds"] = dict()\n        self.t = sc.promotetoarray(list(hard_constraints["programs"].keys()))\n')
